@@ -2,8 +2,13 @@ package main
 
 import (
 	"bytes"
+	"crypto/rand"
 	"crypto/tls"
+	"crypto/x509"
+	"crypto/x509/pkix"
 	"fmt"
+	"math/big"
+	"time"
 
 	"github.com/ansible/receptor/pkg/netceptor"
 )
@@ -60,5 +65,71 @@ func (env *c09Env) verifierReuse() {
 				}
 			}
 		}
+	}
+}
+
+// layer 1c: a verifier that stays installed for a long time (a TLS server configuration lives as long as
+// its listener). Time passes and other peers connect in between: every call must be judged at the moment
+// of the call and only with what that peer presented.
+func (env *c09Env) verifierAging() {
+	tlscfg := &tls.Config{RootCAs: env.pki.cas["caS"].pool(), ClientCAs: env.pki.cas["caC"].pool()}
+	ca := env.pki.cas["caS"]
+	v := netceptor.ReceptorVerifyFunc(tlscfg, nil, env.e, netceptor.ExpectedHostnameTypeReceptor, netceptor.VerifyServer, env.log)
+	mk := func(nb, na time.Time) [][]byte {
+		tpl := &x509.Certificate{SerialNumber: big.NewInt(env.pki.serial.Add(1)), Subject: pkix.Name{CommonName: "aging"},
+			NotBefore: nb, NotAfter: na, KeyUsage: x509.KeyUsageDigitalSignature | x509.KeyUsageKeyEncipherment,
+			ExtKeyUsage:     []x509.ExtKeyUsage{x509.ExtKeyUsageServerAuth},
+			ExtraExtensions: []pkix.Extension{{Id: sanOID, Value: derSAN([]sanEntry{sanID(env.e)})}}}
+		key := env.pki.leafKeys[0]
+		der, err := x509.CreateCertificate(rand.Reader, tpl, ca.cert, &key.PublicKey, ca.key)
+		if err != nil {
+			panic(err)
+		}
+		return append([][]byte{der}, ca.extra...)
+	}
+	time.Sleep(1200 * time.Millisecond)
+	now := time.Now()
+	issuedLater := mk(now.Truncate(time.Second), now.Add(time.Hour))
+	env.run.Eval(1)
+	if err := v(issuedLater, nil); err != nil {
+		env.run.Violation("control-refused:verifier-aging:issued-after-creation", fmt.Sprintf("a verifier created %v before a certificate was issued (NotBefore = time of issue) refuses that valid certificate: %v", time.Since(now.Add(-1200*time.Millisecond)).Round(time.Millisecond), err), nil)
+	} else {
+		env.run.Distinct("verifier-aging|issued-after-creation")
+	}
+	short := mk(now.Add(-time.Hour), now.Add(2*time.Second))
+	env.run.Eval(1)
+	if err := v(short, nil); err != nil {
+		env.run.Count("aging_short_lived_control_refused", 1)
+	} else {
+		time.Sleep(time.Until(now.Add(3500 * time.Millisecond)))
+		env.run.Eval(1)
+		if err := v(short, nil); err == nil {
+			env.run.Violation("accept:time:verifier-aging:expired-while-installed", "a certificate that expired 1.5 s ago is still accepted by a verifier that was created while it was valid", nil)
+		} else {
+			env.run.Distinct("verifier-aging|expired-while-installed")
+		}
+	}
+	// intermediates presented by one peer must not help the next peer
+	for _, c := range env.certs {
+		if c.IssuerCA == nil || len(c.IssuerCA.extra) == 0 || !c.clean("server", "receptor", true, "none") {
+			continue
+		}
+		v2 := netceptor.ReceptorVerifyFunc(tlscfg, nil, env.e, netceptor.ExpectedHostnameTypeReceptor, netceptor.VerifyServer, env.log)
+		fresh := netceptor.ReceptorVerifyFunc(tlscfg, nil, env.e, netceptor.ExpectedHostnameTypeReceptor, netceptor.VerifyServer, env.log)
+		bare := [][]byte{c.Chain[0]}
+		if fresh(bare, nil) == nil {
+			continue // the leaf verifies without its intermediate anyway: nothing to learn
+		}
+		env.run.Eval(2)
+		if err := v2(c.Chain, nil); err != nil {
+			env.run.Violation("control-refused:verifier-aging:chain-with-intermediate", fmt.Sprintf("a clean certificate presented together with its intermediate is refused: %v", err), nil)
+			break
+		}
+		if err := v2(bare, nil); err == nil {
+			env.run.Violation("accept:chain:verifier-aging:remembered-intermediate", "a leaf presented WITHOUT its intermediate is accepted by a verifier that had seen the intermediate from an earlier peer", nil)
+		} else {
+			env.run.Distinct("verifier-aging|intermediate-not-remembered")
+		}
+		break
 	}
 }
